@@ -367,6 +367,41 @@ func c17(c *Ctx) {
 					ok = true
 				}
 			}
+			if !ok {
+				// the open batch's size kept in a counter field: incremented once per insert (unconditionally), compared
+				// with batchSize, and set back to zero exactly where the new batch is opened
+				for _, st := range fieldStores(ins, "groups", "batches") {
+					var counter string
+					if !cmpHolds(factsAt(st.Block()), func(v ssa.Value) bool {
+						if t, f, _, isF := fieldRefThroughLoad(v); isF && t == "groups" && isIntType(v.Type()) {
+							counter = f
+							return true
+						}
+						return false
+					}, func(v ssa.Value) bool { return strings.HasSuffix(pathOf(v), ".batchSize") }, token.GEQ) || counter == "" {
+						continue
+					}
+					incAlways, resetHere, otherStores := false, false, false
+					for _, cs := range fieldStores(ins, "groups", counter) {
+						if add := asBinOp(cs.Val, token.ADD); add != nil {
+							one, isC := constInt(add.Y)
+							_, f2, _, isF := fieldRefThroughLoad(add.X)
+							if isC && one == 1 && isF && f2 == counter && len(condsFor(cs.Block())) == 0 {
+								incAlways = true
+								continue
+							}
+						}
+						if z, isC := constInt(cs.Val); isC && z == 0 && (cs.Block() == st.Block() || st.Block().Dominates(cs.Block()) || cs.Block().Dominates(st.Block())) && len(condsFor(cs.Block())) == len(condsFor(st.Block())) {
+							resetHere = true
+							continue
+						}
+						otherStores = true
+					}
+					if incAlways && resetHere && !otherStores {
+						ok = true
+					}
+				}
+			}
 			r.Check("otlp:insert:opens-new-batch-at-limit", ok, ins.Pos(), "a new group is appended when lenMetrics() >= batchSize")
 		} else {
 			r.Unresolved("otlp.(*groups).insert")
